@@ -148,6 +148,52 @@ def run(ctx):
             db.rel,
             backfills[0].lineno,
         )
+        # every (fork parent, fork) pair must be collected whenever the fork itself is being recorded now: the only `is_recorded` test
+        # that may gate a pair is the one on the fork (its edge was written when it was recorded); that the fork *parent* is already
+        # recorded says nothing about the edge to this fork.
+        acfg = CFG(ah)
+        pair_sites = 0
+        for c in fork_edges:
+            lp = db.parent.get(c)
+            while lp is not None and not isinstance(lp, ast.For):
+                lp = db.parent.get(lp)
+            if lp is None or not isinstance(lp.iter, ast.Name):
+                continue
+            coll = lp.iter.id
+            for n in ast.walk(ah):
+                pairs = []
+                if isinstance(n, ast.Assign) and any(isinstance(t, ast.Name) and t.id == coll for t in n.targets) and isinstance(n.value, ast.ListComp) and isinstance(n.value.elt, ast.Tuple) and len(n.value.elt.elts) == 2:
+                    conds = [i for g in n.value.generators for i in g.ifs]
+                    pairs.append((n.value.elt, conds, n.lineno))
+                elif isinstance(n, ast.Expr) and isinstance(n.value, ast.Call) and src(n.value.func) == f"{coll}.append" and n.value.args and isinstance(n.value.args[0], ast.Tuple) and len(n.value.args[0].elts) == 2:
+                    conds = []
+                    for f, tv in facts_at(acfg, acfg.node_of(n)):
+                        try:
+                            conds.append(ast.parse(f, mode="eval").body)
+                        except SyntaxError:
+                            pass
+                    pairs.append((n.value.args[0], conds, n.lineno))
+                for tup, conds, ln in pairs:
+                    pair_sites += 1
+                    fork_txt = src(tup.elts[1])
+                    bad = []
+                    for cnd in conds:
+                        for a in ast.walk(cnd):
+                            if isinstance(a, ast.Attribute) and a.attr == "is_recorded":
+                                recv = src(a.value).replace(".__handle__", "")
+                                if recv != fork_txt:
+                                    bad.append(src(cnd))
+                    r3.check(
+                        not bad,
+                        f"{db.rel}:RedunBackendDb.advance_handle:fork-edge-guard",
+                        f"the lineage pair ({src(tup.elts[0])}, {fork_txt}) is collected only when `{bad[0] if bad else ''}`: whether the fork *parent* is already recorded does not "
+                        "tell whether the edge to this (so far unrecorded) fork exists; a chain of forks taken from a recorded handle loses its edge to that handle, and a rollback there "
+                        "never reaches the forks",
+                        db.rel,
+                        ln,
+                    )
+        if fork_edges and pair_sites < 2:
+            raise AnalysisError("advance_handle: fewer than 2 sites collect (fork parent, fork) pairs (direct parents, back-filled chain)", "advance_handle")
     else:
         r3.good(f"{db.rel}:RedunBackendDb.advance_handle:fork-edge", "no fork back-fill in advance_handle")
     rh = db.func("RedunBackendDb.rollback_handle")
